@@ -133,6 +133,15 @@ def group_pipeline(c, nprog_quick=240, nprog_thorough=2500, depth_quick=16, dept
     depth = depth_quick if c.tier == "quick" else depth_thorough
     progs = c.generate("Gen_Group", env={"VERIF_DEPTH": depth}, simulate="num=%d" % n)
     files = c.drive("group", progs, shards=max(1, min(vlib.NCPU, n // 12)))
+    # BatchNormalize splits its list among NumCPU workers: part of the histories again on 3 (thorough: 3, 5, 7) CPUs
+    sub = os.path.join(c.dir, "prog-group-cpu.jsonl")
+    with open(sub, "w") as fh:
+        for i, ln in enumerate(open(progs)):
+            if i < (60 if c.tier == "quick" else 300):
+                fh.write(ln)
+    for ncpu in ([3] if c.tier == "quick" else [3, 5, 7]):
+        if ncpu < vlib.NCPU:
+            files += c.drive("group", sub, name="tr-cpu%d" % ncpu, shards=4, taskset="0-%d" % (ncpu - 1))
     c.validate("Trace_Group", files, timeout=10800)
     c.count_classes(files, group_class)
     c.sample_events(files, 2, keep=lambda e: e.get("ev") == "g" and e.get("k", 0) > 6)
@@ -279,6 +288,13 @@ def c18(c):
         c.small("MC_Poly", cfg="MC_Poly8.cfg", timeout=1800)
     progs = c.generate("Gen_Poly")
     files = c.drive("poly", progs, shards=vlib.NCPU)
+    # the weight tables are built when the configuration is created: again in processes started with GOMAXPROCS = 3 (thorough: 3, 5, 6, 7, 12)
+    # and on 5 (thorough: 1, 3, 5, 7, 12) CPUs - worker counts that do not divide 256
+    for gmp in ([3] if quick else [3, 5, 6, 7, 12]):
+        files += c.drive("poly", progs, name="tr-gmp%d" % gmp, shards=4, env={"GOMAXPROCS": gmp})
+    for ncpu in ([5] if quick else [1, 3, 5, 7, 12]):
+        if ncpu < vlib.NCPU:
+            files += c.drive("poly", progs, name="tr-cpu%d" % ncpu, shards=4, taskset="0-%d" % (ncpu - 1))
     c.validate("Trace_Poly", files, heap="4g")
     need = ["divide", "bary", "bary-full", "poly_tables"]
     missing = [k for k in need if c.judged.get(k, 0) == 0]
@@ -287,7 +303,8 @@ def c18(c):
     c.samples.append({"note": "events carry 256-entry vectors; abbreviated", "example": {"ev": "divide", "cls": "unit", "idx": 255, "f": "e_0 (256 limbs arrays)", "out": "quotient (256 limb arrays)"}})
     return c.finish(rule="DivideOnDomain on 13 polynomial classes (random, unit vectors at 0/128/255, r-1 at one index, constant, X^255, all r-1, linear, sparse, small, zero) x domain indices "
                          "(quick: 0,1,54,55,127,128,200,201,254,255 + 2 seeded; thorough: all 256); barycentric coefficients for 10 point classes (256, 257, 300, 65536, 2^64, (r-1)/2, r-2, r-1, random) "
-                         "x 4 polynomials incl. the Vandermonde characterisation; all 512+510 table entries; distinct = distinct (kind, class, index, polynomial)", min_events=100)
+                         "x 4 polynomials incl. the Vandermonde characterisation; all 512+510 table entries; everything again in processes started with GOMAXPROCS=3 and on 5 CPUs "
+                         "(thorough: 3,5,6,7,12 / 1,3,5,7,12); distinct = distinct (kind, class, index, polynomial)", min_events=100)
 
 
 # ------------------------------------------------------------------------------------------ C05
@@ -479,6 +496,7 @@ def c04(c):
     if not quick:
         c.small("MC_IPA", cfg="MC_IPA8.cfg", timeout=3600)
     files = mp_runs(c, "ipa", [(vlib.NCPU, "")])
+    files += mp_runs(c, "ipa_few", [(5, "3")] if quick else [(5, "3"), (3, ""), (7, "")])      # configuration built with worker counts that do not divide 256
     c.validate("Trace_Proof", files, heap="6g", timeout=7200)
     need = ["ipa_prove/in", "ipa_prove/out", "ipa_verify/correct/accepted", "ipa_verify/+1/rejected", "ipa_verify/f255/rejected", "ipa_verify/f255/accepted"]
     missing = [k for k in need if c.judged.get(k, 0) == 0]
